@@ -731,8 +731,40 @@ fn gen_pair(rng: &mut Rng) -> PairSpec {
             spec.focus = format!("policy:{name}");
         }
         55..=79 => {
-            spec.wpart = gen_partition(rng, true);
-            spec.rpart = gen_partition(rng, true);
+            if rng.chance(0.35) {
+                // boundary pairs of the DDS partition rule
+                const CURATED: [(&[&str], &[&str]); 16] = [
+                    (&[], &[""]),
+                    (&[], &["*"]),
+                    (&[], &["?"]),
+                    (&[], &["a"]),
+                    (&["a+"], &["aa"]),
+                    (&["a+"], &["a+"]),
+                    (&["a*"], &["abc"]),
+                    (&["[a-c]"], &["b"]),
+                    (&["[!a]"], &["a"]),
+                    (&["[!a]"], &["b"]),
+                    (&["a?c"], &["abc"]),
+                    (&["a.b"], &["axb"]),
+                    (&["*"], &["*"]),
+                    (&["a"], &["b", "a"]),
+                    (&["[[:alpha:]]"], &["a"]),
+                    (&["??"], &["a"]),
+                ];
+                let (a, b) = *rng.pick(&CURATED);
+                let a: Vec<String> = a.iter().map(|x| x.to_string()).collect();
+                let b: Vec<String> = b.iter().map(|x| x.to_string()).collect();
+                if rng.bool() {
+                    spec.wpart = a;
+                    spec.rpart = b;
+                } else {
+                    spec.wpart = b;
+                    spec.rpart = a;
+                }
+            } else {
+                spec.wpart = gen_partition(rng, true);
+                spec.rpart = gen_partition(rng, true);
+            }
             spec.focus = "partition".into();
         }
         80..=84 => {
